@@ -334,3 +334,48 @@ func VerifH_mldsa_lengths() {
 	verifrt.Reach("end")
 }
 
+
+// ---- C20: hedged signing hands one fresh 32-byte draw, unchanged, to the internal signer;
+// the message framing is 0 || len(ctx) || ctx || M (also part of C10).
+func VerifH_c20_mldsa_sign() {
+	var gotRnd [32]byte
+	var gotMu [64]byte
+	var gotMp []byte
+	calls := 0
+	verifrt.Summarize("mldsa.SecretKey).signInternalWithMu", func(sk *SecretKey, mu [64]byte, rnd [32]byte) []byte {
+		calls++
+		gotRnd, gotMu = rnd, mu
+		return []byte{1}
+	})
+	verifrt.Summarize("mldsa.SecretKey).signInternal", func(sk *SecretKey, mp []byte, rnd [32]byte) []byte {
+		calls++
+		gotRnd, gotMp = rnd, mp
+		return []byte{1}
+	})
+	sk := &SecretKey{par: MLDSA44}
+	d0 := verifrt.Draws()
+	if verifrt.Choice("api", 2) == 0 {
+		var mu [64]byte
+		copy(mu[:], verifrt.Bytes("mu", 64))
+		sk.SignWithMu(mu)
+		verifrt.AssertEq(gotMu[:], mu[:], "mu passed through")
+	} else {
+		m := verifrt.Bytes("m", verifrt.Choice("ml", 3))
+		ctx := verifrt.Bytes("ctx", verifrt.Choice("cl", 3))
+		_, err := sk.Sign(m, ctx)
+		verifrt.Assert(err == nil, "Sign succeeds for contexts up to 255 bytes")
+		want := append(append([]byte{0, byte(len(ctx))}, ctx...), m...)
+		verifrt.AssertEq(gotMp, want, "M' = 0 || len(ctx) || ctx || M")
+	}
+	verifrt.Assert(calls == 1 && verifrt.Draws() == d0+1, "one internal signing call, exactly one random draw")
+	draw := verifrt.DrawBytes(d0)
+	verifrt.Assert(len(draw) == 32, "a 32-byte draw")
+	verifrt.AssertEq(gotRnd[:], draw, "the internal signer receives exactly the drawn bytes")
+	// the deterministic variants use all-zero randomness and draw nothing
+	d1 := verifrt.Draws()
+	var mu [64]byte
+	sk.SignDeterministicWithMu(mu)
+	verifrt.Assert(verifrt.Draws() == d1, "deterministic signing draws nothing")
+	verifrt.AssertEq(gotRnd[:], make([]byte, 32), "deterministic signing uses all-zero randomness")
+	verifrt.Reach("end")
+}
